@@ -141,8 +141,11 @@ pub struct ReqCtx {
     /// parameters of QUERY / EXECUTE
     pub params: Option<QueryParams>,
     pub batch: Option<BatchReq>,
-    /// acked keyspace of the connection
+    /// ACKED keyspace of the connection at the moment this request frame is handled: the keyspace of
+    /// the last RESULT/SetKeyspace that was written completely (not merely requested)
     pub keyspace: Option<String>,
+    /// keyspace of the last USE handled on the connection (its reply may still be delayed/held)
+    pub requested_keyspace: Option<String>,
     /// true when the statement reads a system table the mock synthesises
     pub is_system: bool,
 }
